@@ -39,12 +39,20 @@ func c10BodyCli(modes []sysMode, cliPipeChoice bool) func(x *X) {
 		timing := x.Choose(3) // 0: event at a quiescent moment; 1: after one echo round trip; 2: racing with an in-flight stream message
 		withTraffic := timing == 1
 		s := newSys(mode, srvOpts{bufSize: 64}, cliOpts{bufSize: 64, pipelining: cliPipe})
+		s.cl.WriteFaults = 0 // any client write may fail (fault budget f)
 		st, err := s.conn.NewStream("StreamSvc.Push")
 		sib, err2 := s.conn.NewStream("StreamSvc.Push")
+		if s.cl.Injected > 0 {
+			// the connection broke while the streams were being opened: nothing to set up
+			x.Outcome("open write failed (injected)")
+			s.finish()
+			return
+		}
 		if err != nil || err2 != nil {
 			x.Fail("C10/open-failed", "NewStream: %v %v", err, err2)
 			return
 		}
+
 		if withTraffic {
 			m := streamMsg(0x31, 0)
 			var r []byte
@@ -68,7 +76,7 @@ func c10BodyCli(modes []sysMode, cliPipeChoice bool) func(x *X) {
 			vs.GoNamed("writer", func() { m := streamMsg(0x31, 2); st.WriteMessage(&m) })
 		} else {
 			vs.Quiesce()
-			if rdDone {
+			if rdDone && s.cl.Injected == 0 {
 				x.Fail("C10/reader-not-blocked", "the reader returned before anything was sent: %v", rdErr)
 			}
 		}
@@ -91,6 +99,8 @@ func c10BodyCli(modes []sysMode, cliPipeChoice bool) func(x *X) {
 		vs.Quiesce()
 		label := evNames[ev]
 		out := fmt.Sprintf("%s %s timing=%d", mode.name, label, timing)
+		// a failed client write (fault alternative) breaks the connection: from then on it counts as lost
+		lost := s.cl.Injected > 0
 		if !evDone {
 			x.Fail("C10/close-blocked/"+label, "%s did not return", label)
 		}
@@ -117,7 +127,7 @@ func c10BodyCli(modes []sysMode, cliPipeChoice bool) func(x *X) {
 				x.Fail("C10/later-op-error/"+label, "after %s a later ReadMessage returned %v and WriteMessage %v, want ErrStreamShutdown", label, e1, e2)
 			}
 		}
-		connEnded := ev != evStreamClose
+		connEnded := ev != evStreamClose || lost
 		wantHandlers := 1
 		if connEnded {
 			wantHandlers = 2
@@ -168,10 +178,13 @@ func c10BodyCli(modes []sysMode, cliPipeChoice bool) func(x *X) {
 			vs.GoNamed("sibling", func() { se1 = sib.WriteMessage(&m); se2 = sib.ReadMessage(nil, &r); sibDone = true })
 			s.w.open(0x11)
 			vs.Quiesce()
-			if !sibDone || se1 != nil || se2 != nil || !eqBytes(r, transform(m)) {
+			if s.cl.Injected > 0 {
+				// the connection broke (injected write failure) after the stream had been closed
+			} else if !sibDone || se1 != nil || se2 != nil || !eqBytes(r, transform(m)) {
 				x.Fail("C10/sibling-disturbed", "after closing one stream the sibling stream: done=%v write=%v read=%v reply=%x", sibDone, se1, se2, r)
 			}
-			if !u.ret || u.err != nil || !eqBytes(u.reply, u.want()) {
+			if s.cl.Injected > 0 {
+			} else if !u.ret || u.err != nil || !eqBytes(u.reply, u.want()) {
 				x.Fail("C10/unary-disturbed", "after closing one stream the unary call: returned=%v err=%v", u.ret, u.err)
 			}
 		}
@@ -227,6 +240,7 @@ func init() {
 	register(&Scenario{Prop: "C20", Name: "c20/server-after-abrupt-clients", Quick: []Bound{{1, 0}, {2, 0}}, Thorough: []Bound{{3, 0}}, Body: c10OpenThenGone(c08SrvModes[:3]), OnlyKeys: []string{"C20/", "panic/", "livelock/"}})
 	register(&Scenario{Prop: "C10", Name: "c10/servecodec-atomic", Quick: []Bound{{1, 0}}, Thorough: []Bound{{2, 0}}, Body: c10Body(sysModes[:1]), Atomic: true})
 	register(&Scenario{Prop: "C10", Name: "c10/servecodec-clientpipelining", Quick: []Bound{{2, 0}}, Thorough: []Bound{{3, 0}}, Body: c10BodyCli(sysModes[:1], true), BudgetQ: 30})
+	register(&Scenario{Prop: "C10", Name: "c10/servecodec-writefaults", Quick: []Bound{{1, 1}}, Thorough: []Bound{{2, 1}}, Body: c10Body(sysModes[:1])})
 	register(&Scenario{Prop: "C10", Name: "c10/servecodec", Quick: []Bound{{1, 0}, {2, 0}}, Thorough: []Bound{{3, 0}}, Body: c10Body(sysModes[:1])})
 	register(&Scenario{Prop: "C10", Name: "c10/allmodes", Quick: []Bound{{1, 0}}, Thorough: []Bound{{2, 0}}, Body: c10Body(sysModes)})
 }
